@@ -8,7 +8,8 @@ tier=${1:-quick}; seed=${2:-1}; shift 2 2>/dev/null
 props=${*:-$(seq -f 'C%02g' 1 20)}
 B=$(dirname "$(rustup which --toolchain nightly rustc)")/../lib/rustlib/x86_64-unknown-linux-gnu/bin
 mkdir -p /tmp/cov/prof /tmp/cov/rep
-(cd /verif/harness && CARGO_TARGET_DIR=/tmp/cov/target RUSTFLAGS="--cfg dmntk_verif -C instrument-coverage" cargo +nightly build --offline 2>&1 | tail -1)
+# build scripts are instrumented too and would write default_*.profraw into their package directories under /repo
+(cd /verif/harness && LLVM_PROFILE_FILE=/tmp/cov/prof/build/%p-%m.profraw CARGO_TARGET_DIR=/tmp/cov/target RUSTFLAGS="--cfg dmntk_verif -C instrument-coverage" cargo +nightly build --offline 2>&1 | tail -1; rm -rf /tmp/cov/prof/build)
 run() {
   p=$1
   cd /verif
